@@ -511,6 +511,7 @@ impl VersionSet {
                             wal: change_manifest.wal_file_number,
                             prev_wal: change_manifest.prev_wal_file_number,
                             next_file: change_manifest.curr_file_number,
+                            last_sequence: change_manifest.prev_sequence_number,
                             pointers: change_manifest
                                 .compaction_pointers
                                 .iter()
